@@ -22,7 +22,7 @@ TEXT = {
             "Schedule injection drives the real rayon/mutex code; exhaustive only for the listed (threads, records) at hook granularity, sampled beyond. Interleavings inside rayon's collect / the OS are exercised, not controlled."),
     "C06": ("differential runtime monitor: generated record list vs what Sequences / seq_stats deliver for every serialisation (wrap, CRLF, final newline, FASTQ, gzip stored/compressed/multi-member/BGZF), suffix table, CLI row counts; valgrind on CLI runs (thorough)",
             "Held on the generated files; the oracle is the generator's own record list, so no model of the parser is involved."),
-    "C07": ("final-state + history monitors (exactly-once record take, per-chunk conservation, partition discipline over the temp files between count() and merge()) under the schedule controller, free-running sweeps and contention stress; checked build, ASan, filtered TSan, Miri shard (thorough)",
+    "C07": ("final-state + history monitors (exactly-once record take, per-chunk conservation over the temp files between count() and merge()) under the schedule controller, free-running sweeps and contention stress; checked build, ASan, filtered TSan, Miri shard (thorough)",
             "Exhaustive over hook-granularity schedules only for the tiny configurations listed; lost updates inside scc are sought by contention volume (evidence reports updates per key), not by controlled interleaving."),
     "C08": ("differential runtime monitor: reference multiplicities and bins vs kmers.vectors for library and CLI; byte comparison across thread counts and memory settings; checked build; ASan + >1 GiB batch stage (thorough)",
             "Held on the generated inputs/configurations; the 'flush every few records' regime is only reached by the thorough big-input stage."),
